@@ -2,23 +2,68 @@
 
 Pure differential: for designs both strategies accept, the set of sequences obtained by exhausting the compiled formula
 (the models IterateSATGen iterates over, decoded the way it decodes them; the real IterateSATGen loop is used as well
-when the set is small) equals the set obtained by exhausting RandomGen, compared by level names.  No reference model.
+when the set is small) equals the set obtained by exhausting RandomGen, compared by level names.  Designs too large to
+exhaust are not discarded: every sequence RandomGen returns for them must be a model of that formula (membership mode,
+one direction of the agreement).  No reference model.
 """
 from .. import design as D
-from .. import strategies as G
+from .. import env, lib as L, satutil, strategies as G
+
+
+def membership(ctx):
+    """designs too large to exhaust: every sequence RandomGen returns must be a model of the formula IterateSATGen
+    iterates over (one direction of the agreement; the sequence is turned into assumptions on the trial variables)"""
+    from sweetpea._internal.primitive import HiddenName
+    spec = ctx.spec
+    blk = ctx.block
+    if any(isinstance(f.name, HiddenName) for f in blk.design):
+        raise D.Skip("too-large:models")            # copies of weighted levels print identically: no unique assignment
+    if ctx.T_lib > ctx.lim("max_T_membership"):
+        raise D.Skip("too-large:T")
+    clauses = ctx.lib_call("build_cnf", lambda: L.cnf_clauses(blk))
+    with env.quiet():
+        if blk.show_errors():
+            raise D.Skip("design-reports-errors")
+    rnd, _ = ctx.synth("RandomGen", 6, block=ctx.fresh_built().block)
+    if not rnd:
+        raise D.Skip("too-large:models")
+    solver = satutil.Sat(clauses, extra_vars=blk.variables_per_sample())
+    T = ctx.T_lib
+    ctx.label("membership-mode")
+    for e in rnd:
+        lits = []
+        for f in blk.act_design:
+            col = e.get(f.name)
+            if col is None:
+                raise D.Skip("membership:column-missing")
+            sus = blk.sustain_count(f)
+            for t in range(T):
+                if not f.applies_to_trial(t // sus + 1):
+                    continue
+                for lv in f.levels:
+                    v = blk.get_variable(t + 1, (f, lv))
+                    lits.append(v if lv.name == col[t] else -v)
+        ok, _m = solver.solve(lits)
+        if not ok:
+            ctx.fail("solution-space:random-only", "RandomGen returned %r, which is not a model of the formula IterateSATGen iterates over"
+                     % D.exp_to_seq(e))
+            return
+    ctx.nontrivial = bool(spec["derived"] or spec["block"]["constraints"])
+    ctx.sample = {"spec": spec, "mode": "membership", "sequences_checked": len(rnd)}
 
 
 def judge(ctx):
     spec = ctx.spec
     blk = ctx.block
-    ctx.require_small()
+    if ctx.T_lib > ctx.lim("max_T"):
+        return membership(ctx)
     cap = ctx.lim("max_seqs")
     sat, complete = ctx.sat_all(cap=ctx.lim("max_models"))
     if not complete:
-        raise D.Skip("too-large:models")
+        return membership(ctx)
     sat_set = set(D.exps_counter(sat))
     if len(sat_set) > cap:
-        raise D.Skip("too-large:sequences")
+        return membership(ctx)
     rnd, _ = ctx.synth("RandomGen", cap * 4 + 8, block=ctx.fresh_built().block)
     rnd_set = set(D.exps_counter(rnd))
     if len(rnd) >= cap * 4 + 8:
@@ -48,6 +93,7 @@ P = D.DesignProperty(
           "both sets have >= 2 sequences and the design has a derived factor or a constraint; distinct = distinct spec JSON"),
     cfg_quick=CFG, n_quick=80, n_thorough=1500, case_limit=(25, 180),
     limits={"max_T": {"quick": 7, "thorough": 9}, "max_seqs": {"quick": 300, "thorough": 2500},
-            "max_models": {"quick": 1500, "thorough": 10000}, "real_loop": {"quick": 40, "thorough": 150}},
+            "max_models": {"quick": 1500, "thorough": 10000}, "real_loop": {"quick": 40, "thorough": 150},
+            "max_T_membership": {"quick": 14, "thorough": 20}},
     assumptions=["exhausting = asking for more sequences than exist; the in-process model enumeration decodes with Gen.decode and add_implied_levels exactly like the samplers"])
 P.export(globals())
